@@ -127,9 +127,16 @@ def random_family(ctx, pid, topology, profile, seeds, steps, nontrivial_actions,
 
 def corrupted_copy(traces, mutate):
     """a copy of the first trace with one logged fact altered (trace-level negative control)"""
-    t = copy.deepcopy(traces[0])
-    mutate(t)
-    return [t]
+    last = None
+    for src in traces:            # the first recorded execution that contains the fact to alter
+        t = copy.deepcopy(src)
+        try:
+            mutate(t)
+        except RuntimeError as exc:
+            last = exc
+            continue
+        return [t]
+    raise MachineryError("no recorded execution contains the fact the negative control alters: %s" % last)
 
 
 def trace_control(ctx, name, traces, topology, hdr, mutate, **kw):
